@@ -284,6 +284,13 @@ func genAdmitCase(r *Rng, i int, k AdmitKnobs) *AdmitCase {
 	}
 	a.NS = pickName(r, a.ExNS, "ns")
 	a.User = pickName(r, a.ExUsers, "u")
+	if side := NewRng(uint64(i)*7919 + 13); a.User == "u" && side.Chance(1, 3) { // a side stream: the case's other choices stay what they were
+		r := side
+		// the classes of user an API server really sees: controllers' service accounts (what creates the pods of a workload),
+		// nodes, administrators, an anonymous request
+		a.User = pick(r, []string{"system:serviceaccount:kube-system:replicaset-controller", "system:serviceaccount:kube-system:job-controller", "system:serviceaccount:team:builder",
+			"system:node:node-1", "system:admin", "kubernetes-admin", "system:anonymous", "system:kube-controller-manager"})
+	}
 	a.Name = fmt.Sprintf("obj-%d", i)
 	a.Syn = r.Intn(100) < k.SynPct
 	if k.Shared != nil {
